@@ -56,6 +56,9 @@ let run (path : String.t) =
            | Some (Some (a, b)), "ok" -> if value <> ["S"; string_of_n a; hex_of_ints (List.map int_of_n b)] then corr := false
            | None, "err" -> ()
            | _ -> corr := false)
+        | "bincode_unit" ->
+          (* a value whose encoding is empty decodes from any bytes (nothing is read; trailing bytes are allowed by bincode::deserialize) *)
+          if not (status = "ok" && value = ["U"]) then (prop := false; corr := false)
         | _ ->
           (* a compression of a known payload, untouched: decompressing it gives that payload back (length and hash) *)
           (match expected with
